@@ -2169,18 +2169,12 @@ impl TransactionBuilder {
                             })?;
                         }
                     }
-                    self.set_final_fee(new_fee);
                     // add in the rest of the ADA
                     if !change_left.is_zero() {
-                        self.outputs.0.last_mut().unwrap().amount = self
-                            .outputs
-                            .0
-                            .last()
-                            .unwrap()
-                            .amount
-                            .checked_add(&change_left)?;
-                        // the top-up bypasses add_output: the output it changed must still respect the same two limits
-                        let topped_up = self.outputs.0.last().unwrap();
+                        // the top-up bypasses add_output: the output it changes must still respect the same two limits,
+                        // and a refused top-up must not stay in the builder (checked on a copy, stored afterwards)
+                        let mut topped_up = self.outputs.0.last().unwrap().clone();
+                        topped_up.amount = topped_up.amount.checked_add(&change_left)?;
                         let value_size = topped_up.amount.to_bytes().len();
                         if value_size > self.config.max_value_size as usize {
                             return Err(JsError::from_str(&format!(
@@ -2195,7 +2189,9 @@ impl TransactionBuilder {
                                 topped_up.amount.coin, min_ada
                             )));
                         }
+                        *self.outputs.0.last_mut().unwrap() = topped_up;
                     }
+                    self.set_final_fee(new_fee);
                     Ok(true)
                 } else {
                     let mut calc = MinOutputAdaCalculator::new_empty(&self.config.utxo_cost())?;
